@@ -2520,9 +2520,29 @@ func (s *swamp) destroy(onlyIfStillEmpty bool) {
 // azonnal, így biztonsággal kiadható még a BeginVigil() utasítás is, valamint a swampot lekérdező funkciók is
 // biztonsággal használhatóak
 func (s *swamp) IsClosing() bool {
+	// The interaction is recorded and the flag is read under closeMutex, the mutex under which the
+	// close listener re-checks the idle time and sets the flag (closeIfStillIdle). A summoner is
+	// therefore either seen by the listener (which then does not close) or sees closing=1 (and waits
+	// for the close); it can no longer receive a swamp whose eviction has already been decided.
+	s.closeMutex.Lock()
+	defer s.closeMutex.Unlock()
 	// set the last interaction time to the current time
 	atomic.StoreInt64(&s.lastInteractionTime, time.Now().UnixNano())
 	return atomic.LoadInt32(&s.closing) == 1
+}
+
+// closeIfStillIdle is the eviction of the close listener: Close(), but the decision is re-taken
+// under closeMutex with the current last interaction time, atomically with setting closing=1.
+func (s *swamp) closeIfStillIdle(closeGapDuration time.Duration) {
+	s.closeMutex.Lock()
+	lastInteractionTime := time.Unix(0, atomic.LoadInt64(&s.lastInteractionTime))
+	if atomic.LoadInt32(&s.closing) == 1 || s.Vigil.HasActiveVigils() || !time.Now().After(lastInteractionTime.Add(s.closeAfterIdle+closeGapDuration)) {
+		s.closeMutex.Unlock()
+		return
+	}
+	atomic.StoreInt32(&s.closing, 1)
+	s.closeMutex.Unlock()
+	s.flushAndRelease()
 }
 
 // GetName get the name of the swamp
@@ -3622,14 +3642,14 @@ func (s *swamp) startCloseListener() {
 				if atomic.LoadInt32(&s.inMemorySwamp) == 1 {
 					if !s.Vigil.HasActiveVigils() && atomic.LoadInt32(&s.closing) == 0 && currentTime.After(lastInteractionTime.Add(s.closeAfterIdle+closeGapDuration)) {
 						verifhook.Point("swamp.closeListener.beforeClose")
-						s.Close()
+						s.closeIfStillIdle(closeGapDuration)
 					}
 				} else {
 					if atomic.LoadInt32(&s.isFilesystemWritingActive) == 0 && !s.Vigil.HasActiveVigils() && atomic.LoadInt32(&s.closing) == 0 && currentTime.After(lastInteractionTime.Add(s.closeAfterIdle+closeGapDuration)) {
 						// a swampot éppp nem írja senki, nincs aktív tranzakció, nem zárjuk éppen le és megfelelünk annak a követelménynek is, hogy
 						// az utoljára történt interakció óta eltelt idő nagyobb legyen mint a closeAfterIdle, így a swamp leállítható biztonságosan
 						verifhook.Point("swamp.closeListener.beforeClose")
-						s.Close()
+						s.closeIfStillIdle(closeGapDuration)
 					}
 				}
 
